@@ -1,7 +1,8 @@
 #!/bin/sh
 # usage: build.sh <extract-dir> <out-binary>; compiles extracted modules + hand-written driver
 set -e
+HERE="$(cd "$(dirname "$0")" && pwd)"
 cd "$1"
-cp /verif/ocaml/*.ml .
+cp "$HERE"/*.ml .
 ORDER=$(ocamlfind ocamldep -sort *.mli *.ml)
 ocamlfind ocamlopt -w -a -o "$2" $ORDER
